@@ -11,22 +11,27 @@ func init() {
 		}
 		return Scenario{Name: "C15/bfs-" + cfg, Build: schedCoarse, Pkg: "internal", Test: "TestVerif_C15", Params: p, Shards: shards, BudgetS: budget}
 	}
+	ic := func(driver string, shards int, pp string, budget float64) Scenario {
+		return Scenario{Name: "C15/icb-" + driver, Build: schedCoarse, Pkg: "internal", Test: "TestVerif_C15_ICB", Params: "driver=" + driver + ",P=" + pp, Shards: shards, BudgetS: budget}
+	}
 	register(&Check{
-		ID: "C15", Level: "model_checking", Engine: "E2-BFS+E3-FAULT", DesignRef: "DESIGN.md §4 C15, §3.3, §3.4",
-		Technique: "explicit-state breadth-first search over call sequences on the real instrumented Store / LoadingStore with a scripted secondary store (harness implementation of SecondaryCache: map + full call log + per-call fault script), executed in big steps under the scheduler's manual mode: after every call the real maintenance goroutine and the real processSecondary worker run until nothing is queued; reference model = last write per key + deadline; a destructive immediate Get of every key after every history; exhaustive {ok,fail} fault scripts for Secondary.Set plus Get/Delete failure scripts",
+		ID: "C15", Level: "model_checking", Engine: "E2-BFS+E3-FAULT+E1-ICB", DesignRef: "DESIGN.md §4 C15, §3.3, §3.4",
+		Technique: "explicit-state breadth-first search over call sequences on the real instrumented Store / LoadingStore with a scripted secondary store (harness implementation of SecondaryCache: map + full call log + per-call fault script), executed in big steps under the scheduler's manual mode: after every call the real maintenance goroutine and the real processSecondary worker run until nothing is queued; reference model = last write per key + deadline; a destructive immediate Get of every key after every history; exhaustive {ok,fail} fault scripts for Secondary.Set plus Get/Delete failure scripts; plus stateless model checking (iterative preemption bound) of a lookup racing the real demotion worker, with scheduling points inside every secondary call, for the ordering clause (written to the secondary tier before it leaves memory)",
 		LevelText: "every sequence (to the bound) of Set / SetWithTTL / loading Get / hybrid Get / Delete on 3 keys with MaxSize 1-2 (every second insertion evicts), simple and loading hybrid stores, loader values with and without TTL, admission probability 1, one worker, is run on the real code; in every reached state (a) a Get of a reference-live key must return its value and a loading Get must not call the loader, (b) a reference-live key that is not resident must be in the secondary tier with the identical value, (c) an immediate Get of each key is executed and judged by (a); with every fault script (all 2^n-1 failing patterns of the first n Secondary.Set calls, n=4 quick / 5 thorough, plus scripts failing the first Get/Delete calls) the error-handler count and Len/total cost <= MaxSize are checked in every state. Right level: the failing cases need specific short sequences (evict, look up, update a promoted key, evict again) and specific failure positions; exhaustive enumeration finds the shortest one and names its root cause",
-		LevelNote: "trusted: instrumenter + vrt models, the harness secondary store; bounded: 3 keys, cost 1, MaxSize<=2, <=6 calls (thorough 8; fault scenarios 5 / 6) + 3 probe Gets, fault scripts over the first 4-5 calls of each kind; the worker always keeps up (no full hand-off queue, no interleaving inside a call: those are C14's drivers); probability < 1 is outside the statement",
+		LevelNote: "trusted: instrumenter + vrt models, the harness secondary store; bounded: 3 keys, cost 1, MaxSize<=2, <=6 calls (thorough 8; fault scenarios 5 / 6) + 3 probe Gets, fault scripts over the first 4-5 calls of each kind; in the big-step part the worker always keeps up (no full hand-off queue, no interleaving inside a call); the ICB part interleaves one or two lookups with one or two workers at preemption bound 2 (thorough 3); probability < 1 is outside the statement",
 		Rule:      "BFS over call lists; successor = fresh store + replay + 1 call; canonical state dedup (maps, policy lists, wheel, queues, sketch, secondary contents, fault-script position, reference values); outcome = (Get results, resident map, secondary size, error count) per history; one (clause,signature) per root cause, derived symptoms of a reported (key,value) suppressed",
 		Assume:    []string{"a big step runs one thread alone between two named stopping points", "admission probability 1, one worker, hand-off queue never full (maintenance and worker run to quiescence after every call)", "a failing secondary call has no effect on the secondary store"},
 		Quick: []Scenario{
 			mk("simple-nottl", 8, "6", "", 60), mk("simple-ttl", 8, "6", "", 60), mk("simple-m2", 8, "6", "", 60),
 			mk("loading-nottl", 8, "6", "", 60), mk("loading-ttl", 8, "6", "", 60), mk("loading-m2", 8, "6", "", 60),
 			mk("fault-simple", 16, "5", "4", 60), mk("fault-loading", 16, "5", "4", 60), mk("loading-expiry", 8, "5", "", 60),
+			ic("J1-get-during-demotion", 4, "2", 60), ic("J1t-get-during-demotion-ttl", 4, "2", 60), ic("J2-loading-get-during-demotion", 4, "2", 60), ic("J3-two-workers-two-readers", 8, "1", 60),
 		},
 		Thorough: []Scenario{
 			mk("simple-nottl", 16, "8", "", 100), mk("simple-ttl", 16, "8", "", 100), mk("simple-m2", 16, "8", "", 100),
 			mk("loading-nottl", 16, "8", "", 100), mk("loading-ttl", 16, "8", "", 100), mk("loading-m2", 16, "8", "", 100),
 			mk("fault-simple", 16, "6", "5", 100), mk("fault-loading", 16, "6", "5", 100), mk("loading-expiry", 16, "7", "", 100),
+			ic("J1-get-during-demotion", 8, "3", 600), ic("J1t-get-during-demotion-ttl", 8, "3", 600), ic("J2-loading-get-during-demotion", 8, "3", 600), ic("J3-two-workers-two-readers", 16, "3", 600),
 		},
 	})
 }
